@@ -13,6 +13,7 @@ from dissect.util.stream import AlignedStream
 
 from dissect.hypervisor.disk.c_qcow2 import (
     NORMAL_SUBCLUSTER_TYPES,
+    QCOW2_INCOMPAT_MASK,
     QCOW2_MAGIC,
     UNALLOCATED_SUBCLUSTER_TYPES,
     ZERO_SUBCLUSTER_TYPES,
@@ -88,6 +89,14 @@ class QCow2(AlignedStream):
             self.compression_type = self.header.compression_type
         else:
             self.compression_type = c_qcow2.QCOW2_COMPRESSION_TYPE_ZLIB
+
+        if self.header.incompatible_features & ~QCOW2_INCOMPAT_MASK:
+            raise InvalidHeaderError(
+                f"Unsupported incompatible features: 0x{self.header.incompatible_features & ~QCOW2_INCOMPAT_MASK:x}"
+            )
+
+        if self.compression_type not in (c_qcow2.QCOW2_COMPRESSION_TYPE_ZLIB, c_qcow2.QCOW2_COMPRESSION_TYPE_ZSTD):
+            raise InvalidHeaderError(f"Unsupported compression type: {self.compression_type}")
 
         if self.compression_type == c_qcow2.QCOW2_COMPRESSION_TYPE_ZSTD and not HAS_ZSTD:
             raise RuntimeError("zstandard module not available")
